@@ -437,11 +437,16 @@ Proof.
       - rewrite Hpc. reflexivity.
       - right. destruct (li_ent m L _ _ _ He) as (A & B & _). rewrite A. apply N.eqb_neq in B. rewrite B. simpl.
         rewrite <- Ha. apply (li_lin m L t _ _ He). apply (v_ret _ _ V t _ (or_intror Hpc)). exact Hr. }
+    assert (Hab : LInv (mkL (l_s m) (l_live m) (drop_tid t (l_inflight m)) (ckey (arg (l_s m) t) :: l_taint m))).
+    { eapply linv_drop; eauto.
+      - rewrite Hpc. reflexivity.
+      - intros k' Hk'. now right.
+      - left. now left. }
     destruct r.
-    + destruct (is_add (arg (l_s m) t)) eqn:Ha; [|discriminate]. injection H as <-.
-      split; [|split; auto]. eapply Hok; eauto. discriminate.
-    + destruct (is_add (arg (l_s m) t)) eqn:Ha; [|discriminate]. injection H as <-.
-      split; [|split; auto]. eapply Hok; eauto. discriminate.
+    + destruct (is_add (arg (l_s m) t)) eqn:Ha; injection H as <-; (split; [|split; auto]); auto.
+      eapply Hok; eauto. discriminate.
+    + destruct (is_add (arg (l_s m) t)) eqn:Ha; injection H as <-; (split; [|split; auto]); auto.
+      eapply Hok; eauto. discriminate.
     + injection H as <-. split; [|split; auto]. eapply linv_drop; eauto.
       * rewrite Hpc. reflexivity.
       * intros k' Hk'. now right.
